@@ -235,6 +235,7 @@ def real_scenario(ctx, rng, seed, replay):
         ann.start()
 
     h.at(0.0, setup)
+    announced = [True] * len(insts)
     peers = DSTS[1:]
     sess = {p: net.PeerSession() for p in peers}
     t = 0.0
@@ -252,10 +253,14 @@ def real_scenario(ctx, rng, seed, replay):
             h.at(t, prot.datagram_received, net.sd_bytes([net.find(0x7001 + rng.randrange(2))], sid, reboot=fl), p, mc)
         elif r < 0.93:
             k = rng.randrange(len(insts))
-            h.at(t, lambda k=k: insts[k] in ann.announcing_services and ann.stop_announce_service(insts[k]))
+            if announced[k]:
+                announced[k] = False
+                h.at(t, ann.stop_announce_service, insts[k])
         else:
             k = rng.randrange(len(insts))
-            h.at(t, lambda k=k: insts[k] not in ann.announcing_services and ann.announce_service(insts[k]))
+            if not announced[k]:
+                announced[k] = True
+                h.at(t, ann.announce_service, insts[k])
     horizon = t + 1.0
     h.run(horizon)
     problems = h.problems()
